@@ -739,6 +739,7 @@ def run(rep, tier):
     rep.floor("network family switches", c18_audit.network_family_rule(rep, unu), 1)
     rep.floor("inet_ntop capacity arguments", c18_audit.socklen_rule(rep, usa), 1)
     rep.floor("first-byte guards of the port split", c18_audit.unix_no_split_rule(rep, usa), 2)
+    rep.floor("family loops around inet_pton", c18_audit.family_offered_rule(rep, usa), 1)
     # compile witness: every library function the two files call is declared (gcc >= 14 / clang >= 16 reject an implicit
     # declaration; the older compilers of this image only warn)
     for lab_, ok_, err_ in driver.syntax_only([common.src_unit(SA, "c18:decl:" + SA, cflags=("-Werror=implicit-function-declaration",)),
